@@ -294,6 +294,25 @@ pub fn run(a: &Args, rep: &mut Report) {
                     _ => Op::ExecJit,
                 });
             }
+            // accumulation: one history in 60 goes on with a burst of hundreds of identical calls
+            if rng.chance(1, 60) {
+                let n = *rng.pick(&[254usize, 255, 256, 257, 300, 511, 512, 513, 1025]);
+                let which = rng.below(5);
+                if which != 3 {
+                    ops.push(Op::JitCompile);
+                }
+                for k in 0..n {
+                    ops.push(match which {
+                        0 => Op::ExecJit,
+                        1 => Op::Exec,
+                        2 => Op::SetProgram(usable[k % 2]),
+                        3 => Op::JitCompile,
+                        _ => if k % 2 == 0 { Op::RegisterHelper(k % 8) } else { Op::SetCalc },
+                    });
+                }
+                ops.extend([Op::ExecJit, Op::Exec, Op::JitCompile, Op::ExecJit, Op::Exec]);
+                rep.count("long_api_histories");
+            }
             hist.push((kind, ops));
         }
         let pkt = crate::sys::GuardBuf::new(64, true, false);
